@@ -105,4 +105,12 @@ def main(argv):
 
 
 if __name__ == "__main__":
-    sys.exit(main(sys.argv[1:]))
+    try:
+        code = main(sys.argv[1:])
+    except SystemExit:
+        raise
+    except BaseException:   # never let an internal failure look like exit status 1 (= violation)
+        traceback.print_exc()
+        print("INTERNAL-ERROR (outside the check proper)")
+        code = 2
+    sys.exit(code)
